@@ -119,17 +119,17 @@ def L1(kind, state, shape, ring=1, tiers=('quick', 'thorough'), timeout=900, pro
 API_FUNCS = [
     ('cat_is_busy', 'cat_is_busy(&h_obj)', ['C16', 'C17', 'C18', 'C03']),
     ('cat_is_hold', 'cat_is_hold(&h_obj)', ['C14', 'C16', 'C17', 'C18', 'C03']),
-    ('cat_hold_exit', 'cat_hold_exit(&h_obj,(cat_status)nondet_int())', ['C13', 'C14', 'C16', 'C17', 'C03']),
+    ('cat_hold_exit', 'cat_hold_exit(&h_obj,(cat_status)A_INT)', ['C13', 'C14', 'C16', 'C17', 'C03']),
     ('cat_is_unsolicited_buffer_full', 'cat_is_unsolicited_buffer_full(&h_obj)', ['C13', 'C16', 'C17', 'C03']),
-    ('cat_trigger_unsolicited_event', 'cat_trigger_unsolicited_event(&h_obj,h_pick_cmd(),(cat_cmd_type)nondet_int())', ['C13', 'C16', 'C17', 'C03']),
-    ('cat_trigger_unsolicited_read', 'cat_trigger_unsolicited_read(&h_obj,h_pick_cmd())', ['C13', 'C16', 'C17', 'C03']),
-    ('cat_trigger_unsolicited_test', 'cat_trigger_unsolicited_test(&h_obj,h_pick_cmd())', ['C13', 'C16', 'C17', 'C03']),
-    ('cat_is_unsolicited_event_buffered', 'cat_is_unsolicited_event_buffered(&h_obj,h_pick_cmd(),(cat_cmd_type)nondet_int())', ['C13', 'C03']),
-    ('cat_init', 'cat_init(&h_obj,&h_desc,&h_io,NB()?&h_mutex:NULL)', ['C01', 'C11', 'C13', 'C14', 'C15', 'C18', 'C20', 'C03']),
-    ('cat_search_command_by_name', 'cat_search_command_by_name(&h_obj,h_names[nondet_size()%H_NC])', ['C03']),
-    ('cat_search_command_group_by_name', 'cat_search_command_group_by_name(&h_obj,h_names[nondet_size()%H_NC])', ['C03']),
-    ('cat_search_variable_by_name', 'cat_search_variable_by_name(&h_obj,h_pick_cmd(),h_names[nondet_size()%H_NC])', ['C03']),
-    ('cat_get_processed_command', 'cat_get_processed_command(&h_obj,(cat_fsm_type)nondet_int())', ['C13', 'C03']),
+    ('cat_trigger_unsolicited_event', 'cat_trigger_unsolicited_event(&h_obj,A_CMD,(cat_cmd_type)A_INT)', ['C13', 'C16', 'C17', 'C03']),
+    ('cat_trigger_unsolicited_read', 'cat_trigger_unsolicited_read(&h_obj,A_CMD)', ['C13', 'C16', 'C17', 'C03']),
+    ('cat_trigger_unsolicited_test', 'cat_trigger_unsolicited_test(&h_obj,A_CMD)', ['C13', 'C16', 'C17', 'C03']),
+    ('cat_is_unsolicited_event_buffered', 'cat_is_unsolicited_event_buffered(&h_obj,A_CMD,(cat_cmd_type)A_INT)', ['C13', 'C03']),
+    ('cat_init', 'cat_init(&h_obj,&h_desc,&h_io,A_INT?&h_mutex:NULL)', ['C01', 'C11', 'C13', 'C14', 'C15', 'C18', 'C20', 'C03']),
+    ('cat_search_command_by_name', 'cat_search_command_by_name(&h_obj,A_NAME)', ['C03']),
+    ('cat_search_command_group_by_name', 'cat_search_command_group_by_name(&h_obj,A_NAME)', ['C03']),
+    ('cat_search_variable_by_name', 'cat_search_variable_by_name(&h_obj,A_CMD,A_NAME)', ['C03']),
+    ('cat_get_processed_command', 'cat_get_processed_command(&h_obj,(cat_fsm_type)A_INT)', ['C13', 'C03']),
 ]
 
 
